@@ -23,7 +23,7 @@ RULE = ("histories = start in {0,1,3,2.5} x dt in {1,.5,.25,.1} x 1-10 steps x p
         "distinct_nontrivial = distinct (start, dt, settings pattern, compress, path) combinations with at least 2 steps and at least one "
         "step carrying settings.")
 ASSUMPTIONS = ["equality up to one JSON round trip: numeric dict keys are compared as floats, tuples as lists", "the 'lock' flag is not part of the comparison (it is cleared on save by design)"]
-REQUIRED = {"two_scenario_sessions": 10, "loads_over_live_instance": 10, "twin_restores": 10, "rebegun_sessions": 10, "saves_while_absent": 10, "overwrites_of_existing_state_file": 5, "histories": 100, "restores": 100, "state_fields_compared": 500, "post_restore_steps": 100}
+REQUIRED = {"streamed_tails": 10, "two_scenario_sessions": 10, "loads_over_live_instance": 10, "twin_restores": 10, "rebegun_sessions": 10, "saves_while_absent": 10, "overwrites_of_existing_state_file": 5, "histories": 100, "restores": 100, "state_fields_compared": 500, "post_restore_steps": 100}
 BUDGET_S = {"quick": 110, "thorough": 1500}
 PATHS = ["lazy", "save-load", "timeout", "new-server", "save-while-absent", "twin", "replica", "rollback"]
 
@@ -40,6 +40,9 @@ def gen_cases(tier, seed):
         if i % 3 == 2 and len(pattern) >= 3:
             # a second session begun on the live instance: only ITS logs may be in the state that is saved afterwards
             pattern.insert(rng.randint(1, len(pattern) - 1), "rebegin")
+        if i % 7 == 3:
+            # the rest of the session is streamed (stream-steps runs to the stop time): what is saved afterwards must include the streamed steps
+            pattern.append(rng.choice(["stream-const", "stream-empty", "stream-nobody"]))
         cases.append(dict(layer="rest", start=start, dt=dt, pattern=pattern, compress=bool(i % 2), path=PATHS[(i // 2) % 8], two=(i % 5 == 0), vseed=rng.randrange(10 ** 6)))
     # histories on which even the compressed format loses nothing (start=1, dt=1, the same constant on every step):
     # the compressed mode stays checkable there although its general lossiness is a known finding
@@ -166,7 +169,12 @@ def run_rest(case, counters):
                     if r.status_code != 200:
                         return dict(kind="begin-session-failed", status=r.status_code)
                     continue
-                if kind.startswith("steps"):
+                if kind.startswith("stream"):
+                    st = settings_for(kind[7:], rng) if kind != "stream-nobody" else None
+                    r = c.post("/%s/stream-steps" % iid, json={"settings": st}) if st is not None else c.post("/%s/stream-steps" % iid)
+                    r.get_data()
+                    counters["streamed_tails"] = counters.get("streamed_tails", 0) + 1
+                elif kind.startswith("steps"):
                     # one settings object shared by several steps of a run-steps request
                     st = settings_for({"const": "const", "empty": "empty", "points": "points"}[kind[6:]], rng)
                     r = c.post("/%s/run-steps" % iid, json={"numberSteps": int(kind[5]), "settings": st})
@@ -212,6 +220,9 @@ def run_rest(case, counters):
                 for kind in case["pattern"]:
                     if kind == "rebegin":
                         c.post("/%s/begin-session" % twin, json={"scenario_managers": [srv.MG], "scenarios": scens, "equations": list(srv.EQS)})
+                    elif kind.startswith("stream"):
+                        st = settings_for(kind[7:], rng2) if kind != "stream-nobody" else None
+                        (c.post("/%s/stream-steps" % twin, json={"settings": st}) if st is not None else c.post("/%s/stream-steps" % twin)).get_data()
                     elif kind.startswith("steps"):
                         st = settings_for({"const": "const", "empty": "empty", "points": "points"}[kind[6:]], rng2)
                         c.post("/%s/run-steps" % twin, json={"numberSteps": int(kind[5]), "settings": st})
